@@ -6,6 +6,7 @@ import P2.Driver.MapSt
 import P2.Driver.Cmp
 import P2.Driver.Binning
 import P2.Driver.Lang
+import P2.Driver.LibSpec
 import P2.Driver.Scope
 import P2.Driver.Heap
 import P2.Driver.Generic
@@ -22,6 +23,7 @@ def handle (line : String) : String :=
   | "CMP" :: args => handleCmp args
   | "BIN" :: args => handleBin args
   | "EVAL" :: args => handleEval args
+  | "SPEC" :: args => handleSpec args
   | "SCOPE" :: args => handleScope args
   | "HIST" :: args => P2.Driver.Heap.handleHist args
   | "PARSE" :: args => P2.Driver.C03.handleParse args
